@@ -536,6 +536,66 @@ fn gen_family(rng: &mut Rng) -> (Vec<String>, Vec<String>, Vec<Vec<&'static str>
     (pool, names, feats)
 }
 
+/// sources whose NAME / CONTENT boundary shifts: (name p ++ T[..k], content T[k..]) for several k -- the
+/// concatenation name ++ content is the same for all of them, the programs (and their values) differ;
+/// includes the corners k = 0 (nothing moved into the name) and k = |T| (empty content)
+fn gen_boundary_family(rng: &mut Rng) -> (Vec<String>, Vec<String>, Vec<Vec<&'static str>>) {
+    let (a, b, c, d) = (1 + rng.below(9), rng.below(10), 1 + rng.below(9), 10 + rng.below(80));
+    let t = format!("{}{} - {} + {}", a, b, c, d);                  // "12 - 3 + 45"
+    let p = format!("chunk{}", rng.below(3));
+    // cut points after which the rest is still a program: before/after each digit of the first number, before the
+    // first operator (rest starts with a unary minus), after "ab - ", after "ab - c + ", and the two corners
+    let cuts: Vec<usize> = vec![0, 1, 2, 5, 5 + 1 + 3, t.len()];
+    let mut pool = Vec::new();
+    let mut names = Vec::new();
+    let mut feats: Vec<Vec<&'static str>> = Vec::new();
+    for &k in &cuts {
+        let k = k.min(t.len());
+        names.push(format!("{}{}", p, &t[..k]));
+        pool.push(t[k..].to_string());
+        feats.push(vec![if k == 0 { "boundary-nothing-moved" } else if k == t.len() { "boundary-empty-content" } else { "boundary-shifted" }]);
+    }
+    // a two-line program cut at the line break, and the same text under the plain name
+    let two = format!("let v = {}\nv * {}", d, c);
+    let cut = two.find('\n').unwrap() + 1;
+    names.push(format!("{}{}", p, &two[..cut])); pool.push(two[cut..].to_string().replace("v *", "1 *")); feats.push(vec!["boundary-line-cut"]);
+    names.push(p.clone()); pool.push(format!("{}{}", &two[..cut], two[cut..].replace("v *", "1 *"))); feats.push(vec!["boundary-line-whole"]);
+    (pool, names, feats)
+}
+
+#[cfg(vbxq_aelys_lang_verif)]
+fn run_boundary_families(rng: &mut Rng, n: usize, hid: &mut usize) {
+    for fid in 0..n {
+        let (pool, names, feats) = gen_boundary_family(rng);
+        let kind = match rng.below(4) { 0 => PKind::Compilation, 1 => PKind::Stdlib, _ => PKind::Standard };
+        let opt = *rng.pick(&[0u32, 1, 2, 3]);
+        let k = pool.len();
+        let mk = |reqs: Vec<Req>, origin: &str| Hist { names: names.clone(), kind, opt, pool: pool.clone(), feats: feats.clone(), reqs, origin: origin.to_string() };
+        for i in 0..k { for j in 0..k { if i != j {
+            // both request kinds for every ordered pair (execute only where the pipeline has a VM)
+            run_hist(*hid, &mk(vec![Req::Compile(i), Req::Compile(j)], "boundary-pair")); *hid += 1;
+            if kind != PKind::Compilation { run_hist(*hid, &mk(vec![Req::Exec(i), Req::Exec(j)], "boundary-pair")); *hid += 1; }
+        }}}
+        for _ in 0..3 {
+            let mut order: Vec<usize> = (0..k).collect();
+            for a in (1..k).rev() { let b = rng.below(a as u64 + 1) as usize; order.swap(a, b); }
+            let reqs = order.iter().map(|&i| if kind == PKind::Compilation || rng.chance(1, 3) { Req::Compile(i) } else { Req::Exec(i) }).collect();
+            run_hist(*hid, &mk(reqs, "boundary-order")); *hid += 1;
+        }
+        for i in 0..k { for j in 0..k { if i != j && (names[i] != names[j] || pool[i] != pool[j]) {
+            let log = Rc::new(RefCell::new(Vec::new()));
+            let mut p = Pipeline::new();
+            p.add_stage(Box::new(SynStage { spec: SynSpec { name: "lexer", cacheable: true, counter: false, acts: vec![Act::Tokens] }, idx: 0, runs: 0, log: log.clone() }));
+            p.add_stage(Box::new(SynStage { spec: SynSpec { name: "vm", cacheable: false, counter: false, acts: vec![Act::Value] }, idx: 1, runs: 0, log: log.clone() }));
+            let _ = p.execute_str(&names[i], &pool[i]);
+            log.borrow_mut().clear();
+            let _ = p.execute_str(&names[j], &pool[j]);
+            let ran_probe = log.borrow().iter().any(|(s, _)| *s == 0);
+            println!("K\t{}\t{}\t{}\t{}\t{}\t{}", 1000 + fid, i, j, (!ran_probe) as u8, feats[i][0], feats[j][0]);
+        }}}
+    }
+}
+
 #[cfg(vbxq_aelys_lang_verif)]
 fn run_families(rng: &mut Rng, n: usize, hid: &mut usize) {
     for fid in 0..n {
@@ -960,6 +1020,8 @@ fn hist_main() {
         }
         let mut frng = Rng::new(seed ^ 0xFA);
         run_families(&mut frng, arg_u64("--families", 0) as usize, &mut hid);
+        let mut brng = Rng::new(seed ^ 0xB0);
+        run_boundary_families(&mut brng, arg_u64("--families", 0) as usize, &mut hid);
     }).unwrap();
     handle.join().unwrap();
 }
